@@ -6,7 +6,7 @@ Open Scope Z_scope.
 (** * Fusing a whole chain: each block is merged into its consumer when one of the three rules applies *)
 Definition try_merge (cs : list string) (p b : block) : option block :=
   if can_inline cs p b then Some (inline p b)
-  else if can_ordmerge cs p b then Some (ordmerge p b)
+  else if can_ordmerge_l cs p b then Some (ordmerge_l p b)
   else if can_distmerge p b then Some (distmerge p b)
   else None.
 
@@ -15,7 +15,7 @@ Lemma try_merge_sound p b m fr :
 Proof.
   unfold try_merge. intros H Hwf.
   destruct (can_inline (cols fr) p b) eqn:E1; [inversion H; subst; apply inline_sound; assumption|].
-  destruct (can_ordmerge (cols fr) p b) eqn:E2; [inversion H; subst; apply ordmerge_sound; assumption|].
+  destruct (can_ordmerge_l (cols fr) p b) eqn:E2; [inversion H; subst; apply ordmerge_l_sound; assumption|].
   destruct (can_distmerge p b) eqn:E3; [inversion H; subst; apply distmerge_sound; assumption|].
   discriminate.
 Qed.
